@@ -240,3 +240,37 @@ Proof.
   - split; [exact E2|]. split; [exact E3|].
     intros Hl. specialize (Hl _ E2). inversion Hl; subst. cbn [snd] in *. lia.
 Qed.
+
+(* ------------------------------------------------------------------ *)
+(* what vm_ok says, without the auxiliary definitions                  *)
+(* ------------------------------------------------------------------ *)
+Theorem vm_ok_meaning : forall s, vm_ok s ->
+  exists l : list (N * nat),                                   (* (address, slot) of the nodes, head first *)
+    open_list s l /\                                           (* following u_next from st_open visits exactly l *)
+    StronglySorted (fun x y => y < x) (map snd l) /\           (* strictly descending slots *)
+    NoDup (map fst l) /\
+    (forall a loc, In (a, loc) l ->                            (* every node is an OPEN upvalue object of its slot *)
+       exists v nx, hget (st_heap s) a = Some (OUp (mkUp (Some loc) v nx))) /\
+    Forall (fun x => snd x < length (vdata (st_stack s))) l /\ (* inside the stack array *)
+    (forall a u loc, hget (st_heap s) a = Some (OUp u) -> u_loc u = Some loc -> In (a, loc) l) /\
+    (forall ca h ar ups ua u loc,                              (* in particular the open upvalues of every closure *)
+       hget (st_heap s) ca = Some (OClo h ar ups) -> In ua ups ->
+       hget (st_heap s) ua = Some (OUp u) -> u_loc u = Some loc -> In (ua, loc) l) /\
+    vcount (st_stack s) < length (vdata (st_stack s)) /\
+    Forall (fun f => N.to_nat (fr_off f) < length (vdata (st_stack s))) (st_calls s).
+Proof.
+  intros s ((l & Hseg & D & Hb & Hc) & Hcnt & Hf). exists l.
+  assert (Hobj : forall a u loc, hget (st_heap s) a = Some (OUp u) -> u_loc u = Some loc -> In (a, loc) l).
+  { intros a u loc Hg Hl.
+    assert (Hin : In a (addrs l)) by (apply Hc; rewrite Hg; cbn; rewrite Hl; discriminate).
+    unfold addrs in Hin. apply in_map_iff in Hin. destruct Hin as ([a' k] & Ea & Hin). cbn in Ea. subst a'.
+    destruct (seg_view _ _ _ _ _ _ Hseg Hin) as (nx & Ev). rewrite Hg in Ev. cbn in Ev. rewrite Hl in Ev.
+    injection Ev as -> _. exact Hin. }
+  split; [exact Hseg|]. split; [exact D|]. split; [eapply seg_nodup; eauto|].
+  split.
+  { intros a loc Hin. destruct (seg_view _ _ _ _ _ _ Hseg Hin) as (nx & Ev).
+    destruct (oview_some _ _ _ Ev) as (v & Hg). eauto. }
+  split; [exact Hb|]. split; [exact Hobj|].
+  split; [intros ca h ar ups ua u loc _ _ Hg Hl; eapply Hobj; eauto|].
+  split; [exact Hcnt|exact Hf].
+Qed.
